@@ -128,6 +128,8 @@ func newApp(c Case) *fiber.App {
 		return ctx.SendString("dirty")
 	})
 	app.All("/probe/:p1/:p2?", func(ctx fiber.Ctx) error {
+		// negotiation against offers that carry parameters (first thing: parsed range parameters live in a process-wide pool)
+		neg := ctx.Accepts("application/json;version=1", "text/html;level=1", "text/plain") + "|" + ctx.Accepts("text/html;level=1", "text/plain")
 		obs := vk.Observe(ctx, "lk", "other")
 		if ctx.Query("redir") == "1" {
 			return ctx.Redirect().To("/plain")
@@ -139,6 +141,7 @@ func newApp(c Case) *fiber.App {
 			return ctx.SendFile(assetPath, fiber.SendFile{MaxAge: 3600})
 		}
 		ctx.Set("X-Obs-Len", fmt.Sprint(len(obs)))
+		ctx.Set("X-Neg", neg)
 		return ctx.Render("tpl", fiber.Map{"own": "1", "obs": strings.Join(obs, "\n")})
 	})
 	return app
@@ -182,8 +185,22 @@ func (h HReq) wire() []byte {
 	if host == "" {
 		host = fmt.Sprintf("h%d.sub.test", h.I)
 	}
-	return []byte(fmt.Sprintf("%s /dirty/D%d%s?acts=%s&a=qa%d&b=qb1&b=qb2&n=%d HTTP/1.1\r\nHost: %s\r\nX-A: ha%d\r\nX-Forwarded-For: 9.9.9.%d\r\nAccept: text/plain;q=0.%d\r\nRange: bytes=%d-\r\nIf-None-Match: \"e%d\"\r\n%sCookie: a=ca%d; sid=s%d%s\r\nContent-Length: %d\r\n\r\n%s",
-		h.Method, h.I, p2, strings.Join(h.Acts, ","), h.I, h.I, host, h.I, h.I%250, h.I%9+1, h.I, h.I, ct, h.I, h.I, flashHdr(h.Flash), len(body), body))
+	return []byte(fmt.Sprintf("%s /dirty/D%d%s?acts=%s&a=qa%d&b=qb1&b=qb2&n=%d HTTP/1.1\r\nHost: %s\r\nX-A: ha%d\r\nX-Forwarded-For: 9.9.9.%d\r\nAccept: %s\r\nRange: bytes=%d-\r\nIf-None-Match: \"e%d\"\r\n%sCookie: a=ca%d; sid=s%d%s\r\nContent-Length: %d\r\n\r\n%s",
+		h.Method, h.I, p2, strings.Join(h.Acts, ","), h.I, h.I, host, h.I, h.I%250, histAccept(h.I), h.I, h.I, ct, h.I, h.I, flashHdr(h.Flash), len(body), body))
+}
+
+// histAccept: the Accept header of the i-th history request: plain weights, refused ranges that carry parameters, several
+// parameterised ranges (negotiation keeps parsed parameters in a process-wide pool)
+func histAccept(i int) string {
+	switch i % 4 {
+	case 1:
+		return "text/html;level=1;q=0, text/plain"
+	case 2:
+		return fmt.Sprintf("application/json;version=%d;q=0, text/html;level=2;charset=utf-8;q=0, */*;q=0.1", i)
+	case 3:
+		return "application/json;version=2, text/html;level=3;q=0.5"
+	}
+	return fmt.Sprintf("text/plain;q=0.%d", i%9+1)
 }
 
 func (p Probe) wire() []byte {
@@ -201,7 +218,7 @@ func (p Probe) wire() []byte {
 	hdr := ""
 	ck := ""
 	if p.Headers {
-		hdr = "X-A: probe-a\r\nAccept: application/json\r\n"
+		hdr = "X-A: probe-a\r\nAccept: application/json;version=1, text/html;level=1;q=0.5\r\n"
 		ck = "a=probe-cookie"
 	}
 	if len(p.Flash) > 0 {
